@@ -464,7 +464,10 @@ func c13RandLiteral(rng *core.Rng) string {
 	var sb strings.Builder
 	sb.WriteByte('"')
 	for n := rng.Intn(10); n > 0; n-- {
-		switch rng.Intn(12) {
+		switch rng.Intn(13) {
+		case 12:
+			// control characters written as they are (only the newline needs an escape in an interpreted literal)
+			sb.WriteString(core.Pick(rng, []string{"\r", "\t", "a\rb", "\x01", "\x7f", "\r\r", "\x0b"}))
 		case 0:
 			sb.WriteString(core.Pick(rng, []string{`\a`, `\b`, `\f`, `\n`, `\r`, `\t`, `\v`, `\\`, `\"`}))
 		case 1:
@@ -491,7 +494,9 @@ func c13RandLiteral(rng *core.Rng) string {
 }
 
 func c13RandCharLit(rng *core.Rng) string {
-	switch rng.Intn(10) {
+	switch rng.Intn(11) {
+	case 10:
+		return "'" + core.Pick(rng, []string{"\r", "\t", "\x01", "\x7f"}) + "'"
 	case 0:
 		return "'" + core.Pick(rng, []string{`\a`, `\b`, `\f`, `\n`, `\r`, `\t`, `\v`, `\\`, `\'`}) + "'"
 	case 1:
